@@ -8,7 +8,9 @@
 #include "constants.h"
 #include <math.h>
 #if defined(ARGS)
+#ifndef VP_NATIVE
 int __builtin_isfinite(double d) { return __CPROVER_isfinited(d); }   // CBMC 6.11 has no body for the builtin
+#endif
 double in_lat, in_lng; int in_res; uint64_t in_idx; int in_face;
 static int ngeo, nidx;
 void _geoToFaceIjk(const LatLng *g, int res, FaceIJK *h) {
